@@ -33,7 +33,7 @@ pub fn run(args: &Args) -> Report {
         "C11",
         &args.tier,
         args.seed,
-        "complete product store capability (full, non-discoverable only, forced) x residentKey (absent, discouraged, preferred, required) x requireResidentKey x credProps (absent, false, true) x signature counters on/off x PRF requested-and-configured or not at client level x user id length (1, 8, 64 bytes) at client level and rk x capability x store form (the store itself, Arc<Mutex>, Arc<RwLock>, Mutex, RwLock around it) at CTAP level, each followed by an assertion with the new credential; distinct by the tuple; every tuple is non-trivial (finite product)",
+        "complete product store capability (full, non-discoverable only, forced) x residentKey (absent, discouraged, preferred, required) x requireResidentKey x credProps (absent, false, true) x signature counters on/off x PRF requested-and-configured or not at client level x user id length (1, 8, 64 bytes) at client level and rk x capability x store form (the store itself, Arc<Mutex>, Arc<RwLock>, Mutex, RwLock around it) at CTAP level, each followed by an assertion with the new credential; plus 108 cells of two registrations on one authenticator whose store changes capability in between, under every verification-capability report; distinct by the tuple; every tuple is non-trivial (finite product)",
     );
     rep.exhaustive = true;
     let only = replay_index(args);
@@ -258,6 +258,74 @@ pub fn run(args: &Args) -> Report {
                 }
             }
             rep.sample_class(&format!("ctap/{disc:?}/{rk}/{form_name}"), case);
+        }
+    }
+    // ---------------- one authenticator, the store's capability changing between two registrations,
+    // under every report of the user-validation method about its verification capability
+    for d1 in [Disc::Full, Disc::OnlyNonDiscoverable, Disc::Forced] {
+        for d2 in [Disc::Full, Disc::OnlyNonDiscoverable, Disc::Forced] {
+            for (rk1, rk2) in [(false, false), (false, true), (true, false), (true, true)] {
+                for ver_cap in [Some(true), Some(false), None] {
+                    index += 1;
+                    if only.map_or(false, |o| o != index) {
+                        continue;
+                    }
+                    rep.eval();
+                    let case = json!({"index": index, "level": "ctap", "part": "capability changes between two registrations on one authenticator", "capability_first": format!("{d1:?}"), "capability_then": format!("{d2:?}"), "rk_first": rk1, "rk_then": rk2, "verification_capability": ver_cap});
+                    rep.nontrivial(fnv_str(&case.to_string()));
+                    let r = catch(|| {
+                        let rig = Rig::new(d1, crate::collab::UvOutcome::Check { presence: true, verification: ver_cap == Some(true) }, ver_cap);
+                        let mut auth = rig.auth(AuthCfg::default());
+                        let info1 = block_on(auth.get_info()).options.map(|o| o.rk);
+                        let first = block_on(auth.make_credential(mc_request("example.com", b"first", &[1u8; 32], vec![pk_param(coset::iana::Algorithm::ES256)], None, None, rk1, true, false))).map(|_| ()).map_err(|e| status_byte_ref(&e));
+                        auth.store_mut().disc = d2;
+                        let info2 = block_on(auth.get_info()).options.map(|o| o.rk);
+                        let n_before = rig.store.snapshot().len();
+                        let second = block_on(auth.make_credential(mc_request("example.com", b"second", &[2u8; 32], vec![pk_param(coset::iana::Algorithm::ES256)], None, None, rk2, true, false))).map(|_| ()).map_err(|e| status_byte_ref(&e));
+                        let snap = rig.store.snapshot();
+                        (info1, first, info2, second, n_before, snap)
+                    });
+                    let (info1, first, info2, second, n_before, snap) = match r {
+                        Ok(v) => v,
+                        Err((sig, d)) => {
+                            rep.violate(&format!("ctap: {sig}"), d, case);
+                            continue;
+                        }
+                    };
+                    let sup1 = d1 != Disc::OnlyNonDiscoverable;
+                    let sup2 = d2 != Disc::OnlyNonDiscoverable;
+                    if info1 != Some(sup1) || info2 != Some(sup2) {
+                        rep.violate("ctap: get_info rk option does not reflect the store capability", format!("{info1:?} under {d1:?}, then {info2:?} under {d2:?}"), case.clone());
+                    }
+                    if first.is_ok() == (rk1 && !sup1) {
+                        rep.violate("ctap: first registration not refused exactly when rk is asked of a non-discoverable-only store", format!("{first:?}"), case.clone());
+                    }
+                    rep.count("capability_change_cells");
+                    match second {
+                        Err(b) => {
+                            if !(rk2 && !sup2) {
+                                rep.violate("ctap: make_credential failed although rk is satisfiable under the store's present capability", format!("{b:#x}"), case.clone());
+                            }
+                            if snap.len() != n_before {
+                                rep.violate("ctap: refused registration stored a credential", String::new(), case.clone());
+                            }
+                        }
+                        Ok(()) => {
+                            if rk2 && !sup2 {
+                                rep.violate("ctap: rk=true was not refused by a store that has become non-discoverable-only", String::new(), case.clone());
+                            }
+                            match snap.last() {
+                                Some(s) if snap.len() == n_before + 1 => {
+                                    if s.user_handle.is_some() != d2.discoverable(rk2) {
+                                        rep.violate("ctap: user handle stored differently from discoverability under the store's present capability", format!("stored {}, discoverable {}", s.user_handle.is_some(), d2.discoverable(rk2)), case.clone());
+                                    }
+                                }
+                                _ => rep.violate("ctap: successful registration did not add one credential", String::new(), case.clone()),
+                            }
+                        }
+                    }
+                }
+            }
         }
     }
     rep.obs("product_size", json!(index));
